@@ -34,3 +34,71 @@ impl VFilter {
         self.0.prune_limiter()
     }
 }
+
+/// What the receive task handed on for one datagram.
+#[derive(Debug)]
+pub enum VDelivered {
+    /// decoded, passed both filter stages (or was exempt)
+    Packet {
+        src_address: SocketAddr,
+        message_nonce: crate::packet::MessageNonce,
+        kind: crate::packet::PacketKind,
+        message: Vec<u8>,
+        authenticated_data: Vec<u8>,
+    },
+    /// could not be decoded, handed on as an unrecognised frame
+    Unrecognized { src_address: SocketAddr, len: usize },
+}
+
+/// The real receive task (`RecvHandler::handle_inbound`: exemption lookup, both filter stages,
+/// decoding) on its own, fed from a channel. Add-only wrapper, no behaviour.
+pub struct VRecv {
+    /// Datagrams arriving at the socket: (source address, bytes).
+    pub inbound: tokio::sync::mpsc::UnboundedSender<(SocketAddr, Vec<u8>)>,
+    /// The map shared with the receive task (address -> number of exemptions).
+    pub expected_responses: std::sync::Arc<parking_lot::RwLock<std::collections::HashMap<SocketAddr, usize>>>,
+    delivered: tokio::sync::mpsc::Receiver<super::recv::RecvPacket>,
+    _exit: tokio::sync::oneshot::Sender<()>,
+}
+
+impl VRecv {
+    pub async fn spawn(
+        filter_config: FilterConfig,
+        ban_duration: Option<Duration>,
+        local_node_id: enr::NodeId,
+    ) -> Result<Self, std::io::Error> {
+        let (inbound, inbound_rx) = tokio::sync::mpsc::unbounded_channel();
+        let expected_responses = std::sync::Arc::new(parking_lot::RwLock::new(std::collections::HashMap::new()));
+        let dummy = std::sync::Arc::new(tokio::net::UdpSocket::bind((std::net::Ipv4Addr::LOCALHOST, 0)).await?);
+        let config = super::recv::RecvHandlerConfig {
+            filter_config,
+            ban_duration,
+            executor: Box::new(crate::executor::TokioExecutor),
+            recv: dummy,
+            second_recv: None,
+            local_node_id,
+            protocol_identity: ProtocolIdentity::default(),
+            expected_responses: expected_responses.clone(),
+        };
+        let (delivered, exit) = super::recv::RecvHandler::spawn_virtual(config, inbound_rx);
+        Ok(VRecv { inbound, expected_responses, delivered, _exit: exit })
+    }
+
+    /// What the receive task has handed on so far (non-blocking).
+    pub fn take_delivered(&mut self) -> Vec<VDelivered> {
+        let mut out = Vec::new();
+        while let Ok(p) = self.delivered.try_recv() {
+            out.push(match p {
+                super::recv::RecvPacket::Inbound(i) => VDelivered::Packet {
+                    src_address: i.src_address,
+                    message_nonce: i.header.message_nonce,
+                    kind: i.header.kind,
+                    message: i.message,
+                    authenticated_data: i.authenticated_data,
+                },
+                super::recv::RecvPacket::UnrecognizedFrame(f) => VDelivered::Unrecognized { src_address: f.src_address, len: f.packet.len() },
+            });
+        }
+        out
+    }
+}
